@@ -11,7 +11,8 @@ import (
 type Clause struct {
 	E    *Expr
 	Text string
-	Src  string // file:line
+	Src  string   // file:line
+	Tags []string // property ids this clause belongs to ("[C09,C10] expr"); empty = shared by all
 }
 
 type LoopSpec struct {
@@ -35,8 +36,11 @@ type FuncSpec struct {
 	Loops      map[int]*LoopSpec
 	Src        string
 	File       string
+	Panics     bool // the requires clauses are conditions under which the callee panics (safety obligations)
+	ArgsOnly   bool // writes only memory directly pointed to by its arguments (and fresh memory)
 	NoPanic    bool // "nopanic": callee never panics when its preconditions hold (trusted only)
 	Nilable    map[string]bool
+	Hints      map[string][]*Clause // callee name -> facts asserted (then assumed) before each call to it
 }
 
 type PureFn struct {
@@ -160,11 +164,21 @@ func (sp *Specs) LoadFile(path string, stripPrefix string) error {
 			kw, rest = line[:i], strings.TrimSpace(line[i:])
 		}
 		mkClause := func(text string) (*Clause, error) {
+			var tags []string
+			text = strings.TrimSpace(text)
+			if strings.HasPrefix(text, "[C") {
+				if k := strings.Index(text, "]"); k > 0 {
+					for _, t := range strings.Split(text[1:k], ",") {
+						tags = append(tags, strings.TrimSpace(t))
+					}
+					text = strings.TrimSpace(text[k+1:])
+				}
+			}
 			e, err := ParseExpr(text)
 			if err != nil {
 				return nil, fmt.Errorf("%s: %v", src, err)
 			}
-			return &Clause{E: e, Text: text, Src: src}, nil
+			return &Clause{E: e, Text: text, Src: src, Tags: tags}, nil
 		}
 		switch kw {
 		case "func":
@@ -175,7 +189,7 @@ func (sp *Specs) LoadFile(path string, stripPrefix string) error {
 			if _, dup := sp.Funcs[fs[0]]; dup {
 				return fmt.Errorf("%s: duplicate contract for %s", src, fs[0])
 			}
-			cur = &FuncSpec{Name: fs[0], Loops: map[int]*LoopSpec{}, Src: src, File: path, Nilable: map[string]bool{}}
+			cur = &FuncSpec{Name: fs[0], Loops: map[int]*LoopSpec{}, Src: src, File: path, Nilable: map[string]bool{}, Hints: map[string][]*Clause{}}
 			for _, a := range fs[1:] {
 				switch a {
 				case "trusted":
@@ -185,6 +199,11 @@ func (sp *Specs) LoadFile(path string, stripPrefix string) error {
 					cur.HasAssigns = true
 				case "nopanic":
 					cur.NoPanic = true
+				case "panics":
+					cur.Panics = true
+				case "argsonly":
+					cur.ArgsOnly = true
+					cur.HasAssigns = true
 				default:
 					return fmt.Errorf("%s: unknown func attribute %q", src, a)
 				}
@@ -202,6 +221,21 @@ func (sp *Specs) LoadFile(path string, stripPrefix string) error {
 				return fmt.Errorf("%s: %v", src, err)
 			}
 			cur.Ghost = append(cur.Ghost, ds...)
+		case "before":
+			// before <callee> assert <expr>
+			if cur == nil {
+				return fmt.Errorf("%s: before outside func", src)
+			}
+			fs := strings.Fields(rest)
+			if len(fs) < 3 || fs[1] != "assert" {
+				return fmt.Errorf("%s: before <callee> assert <expr>", src)
+			}
+			text := strings.TrimSpace(strings.TrimPrefix(strings.TrimSpace(strings.TrimPrefix(rest, fs[0])), "assert"))
+			c, err := mkClause(text)
+			if err != nil {
+				return err
+			}
+			cur.Hints[fs[0]] = append(cur.Hints[fs[0]], c)
 		case "nilable":
 			if cur == nil {
 				return fmt.Errorf("%s: nilable outside func", src)
